@@ -144,6 +144,30 @@ fn check_section<E: EndianParse>(f: &elf::ElfBytes<'_, E>, h: &m::Shdr, cx: &mut
             (Err(e), Some(_)) => return Err(d(&format!("section_data_as_strtab failed with {}", err_name(&e)))),
         }
     }
+    if h.sh_type == m::SHT_STRTAB && h.sh_flags & m::SHF_COMPRESSED != 0 {
+        // the typed view is a view of section_data: without the compression header
+        match (f.section_data_as_strtab(&sh), inside(h.sh_offset, h.sh_size, len)) {
+            (Ok(t), Some((a, b))) if b - a >= chs => {
+                for off in [0usize, 1, 2, 5] {
+                    let st0 = a + chs + off;
+                    let want = if st0 < b { cx.data[st0..b].iter().position(|x| *x == 0).map(|p| (st0, p)) } else { None };
+                    match (t.get_raw(off), want) {
+                        (Ok(s), Some((st, l))) => {
+                            if !ptr_is(s, cx.data, st, l) {
+                                return Err(d(&format!("compressed string table: string at offset {} is {} bytes at input offset {:?}, expected {} bytes at {} (after the compression header)", off, s.len(), (s.as_ptr() as usize).checked_sub(cx.data.as_ptr() as usize), l, st)));
+                            }
+                            cx.checked += 1;
+                        }
+                        (Err(_), None) => {}
+                        (Ok(s), None) => return Err(d(&format!("compressed string table lookup at {} returned {} bytes but nothing starts there after the compression header", off, s.len()))),
+                        (Err(e), Some(_)) => return Err(d(&format!("compressed string table lookup at {} failed with {}", off, err_name(&e)))),
+                    }
+                }
+            }
+            (Ok(_), Some(_)) | (Ok(_), None) => return Err(d("section_data_as_strtab succeeded on a compressed section that is out of range or shorter than its compression header")),
+            (Err(_), _) => cx.refused += 1,
+        }
+    }
     if h.sh_type == m::SHT_NOTE && plain {
         match (f.section_data_as_notes(&sh), inside(h.sh_offset, h.sh_size, len)) {
             (Ok(it), Some((a, b))) => {
@@ -254,6 +278,16 @@ fn oracle(case: &[u8], obs: &mut Obs) -> Result<(), String> {
         verif_model::choice::fill(c.u16() as u64 | 1, &mut b);
         f.add_sec(b".blob", m::SHT_PROGBITS, b);
     }
+    if c.chance(200) {
+        let names: Vec<Vec<u8>> = vec![vec![], b"alpha".to_vec(), b"be".to_vec()];
+        let tab = refs::build_symtab(enc, &names, c.u16() as u64, false);
+        let i_str = f.add_sec(b".strtab", m::SHT_STRTAB, tab.strtab);
+        let i = f.add_sec(b".symtab", m::SHT_SYMTAB, tab.symtab);
+        f.secs[i].hdr.sh_link = i_str as u32;
+        f.secs[i].hdr.sh_entsize = m::sym_size(enc) as u64;
+        let s = f.add_sec(b".shstrtab", m::SHT_STRTAB, vec![]);
+        f.shstrndx = Some(s);
+    }
     filegen::random_layout(&mut c, &mut f, 24);
     let first = filegen::build(&f);
     let len = first.bytes.len() as u64;
@@ -300,6 +334,33 @@ fn oracle(case: &[u8], obs: &mut Obs) -> Result<(), String> {
         }
         for (i, p) in b.phdrs.iter().enumerate() {
             check_segment(&file, p, &mut cx, &format!("segment {}", i))?;
+        }
+        // strings handed out through the section-name table and the symbol tables borrow from the input too
+        if let Ok((_, Some(t))) = file.section_headers_with_strtab() {
+            let h = &b.shdrs[b.ehdr.e_shstrndx as usize];
+            for k in [1usize, 2, 7] {
+                if let Ok(sx) = t.get_raw(k) {
+                    if !ptr_is(sx, cx.data, h.sh_offset as usize + k, sx.len()) {
+                        return Err(format!("section-name string at offset {} does not point at sh_offset+{} of the designated string table", k, k));
+                    }
+                    cx.checked += 1;
+                }
+            }
+        }
+        if let Ok(Some((st, strs))) = file.symbol_table() {
+            let symh = b.shdrs.iter().find(|h| h.sh_type == m::SHT_SYMTAB).unwrap();
+            let strh = &b.shdrs[symh.sh_link as usize];
+            if st.len() != (symh.sh_size as usize) / m::sym_size(enc) {
+                return Err("symbol_table() has a different number of entries than sh_size / entsize".into());
+            }
+            for k in [0usize, 1, 3, 4] {
+                if let Ok(sx) = strs.get_raw(k) {
+                    if !ptr_is(sx, cx.data, strh.sh_offset as usize + k, sx.len()) {
+                        return Err(format!("symbol-name string at offset {} does not point at the linked string table's sh_offset+{}", k, k));
+                    }
+                    cx.checked += 1;
+                }
+            }
         }
         for h in &extra_s {
             check_section(&file, h, &mut cx, "fabricated section header")?;
